@@ -137,7 +137,7 @@ func runC08(r *core.Run) {
 				}
 				vals := c08Vals(d, n, vs)
 				arr := ref.Arr{DT: d, Shape: shape, El: vals}
-				for _, lay := range atlas.L5 {
+				for _, lay := range append(append([]string{}, atlas.L5...), "TS", "ST") { // + transpose-of-slice, slice-of-transpose
 					for _, op := range ops {
 						if d.Class == ref.CComplex && op.name != "Sum" {
 							continue
